@@ -1263,6 +1263,7 @@ func main() {
 			"eval/zero-value: Eval[int]{} as receiver/argument of Get, Run, Resume, Map, FlatMap, Map2 and as the result of FlatMap continuations and TailCall/TailCall1 thunks, evaluated 1..2 times; the stack scenarios include loops whose base case is Eval[int]{}. " +
 			"eval/shared-base: (start in {Done, Call, TailCall, Map2, Eval{}} x bind pattern in {Map, FlatMap->Done, Map2(base,_), Map2(_,base), mixed, FlatMap->Call|TailCall} x 0..12 binds) = one shared base Eval value x (every ordered pair of 8 different extensions through Map/FlatMap/Map2 (one returns Eval{}), and 8 triples) x 5 build/evaluation orders; every derived program is compared with strict evaluation, every thunk incl. those of the shared base runs <= 1 time. " +
 			"eval/panicking-thunk: deferred-computation kind x (thunk panics on its first execution only | on every execution) x 3..4 requests, each under recover; conc-panic/*: the same thunks (panic after a scheduling point) demanded by 2 threads 1..2 times each, every interleaving. Only the execution count (<= 1) is judged there. " +
+			"conc-noreduction/*: the shapes 2x1, 2x2, 3x1 of conc/* again without sleep sets, every schedule with at most 3 preemptions (catches conflicts on plain variables that the cell-based independence relation cannot see). " +
 			"conc/*: every interleaving (sleep sets) of the threads at every sync.Once entry/exit of the library and at a point inside each thunk body; non-trivial = the scheduler switched between two started threads"
 		r.Assumptions = []string{
 			"'executed at most once, even when the result is requested repeatedly' is read literally: it also holds for a thunk whose execution panicked (sync.Once marks itself done on panic); what later requests return, or whether they panic, is not demanded",
@@ -1342,6 +1343,13 @@ func main() {
 			sc := r.Conc("conc/"+k.name, -1, concScenario(k, shapes))
 			sc.SplitDepth = 3
 			sc = r.Conc("conc-panic/"+k.name, -1, concPanic(k))
+			sc.SplitDepth = 3
+			// The sleep-set reduction judges independence by the cell of the hooked operation
+			// only; a plain variable written after the thunk returns and read by another
+			// caller right after an atomic flag (a memo that publishes "done" before the
+			// value) is a conflict it cannot see. The same shapes are therefore also explored
+			// without reduction, every schedule with at most 3 preemptions.
+			sc = r.Conc("conc-noreduction/"+k.name, 3, concScenario(k, [][2]int{{2, 1}, {2, 2}, {3, 1}}))
 			sc.SplitDepth = 3
 		}
 		r.Extra["bounds"] = map[string]any{
